@@ -97,7 +97,12 @@ func runRoundTrip(which string, env *fw.Env, c rtCase) fw.Result {
 		return fw.Result{Verdict: fw.Inconclusive, Msg: err.Error()}
 	}
 	var uerr error
-	panicked, pv := fw.Try(func() { uerr = slug.Unpack(bytes.NewReader(obs.Data), dst) })
+	// the destination is written in one of 8 spellings (clean, trailing
+	// separator, dot segments, relative to the working directory, ...)
+	dstArg, restore := spelledDir(dst, fw.HashString(c.Tree.Key()+c.Opts.String()))
+	res.Case.(map[string]interface{})["dst_spelled"] = dstArg
+	panicked, pv := fw.Try(func() { uerr = slug.Unpack(bytes.NewReader(obs.Data), dstArg) })
+	restore()
 	if panicked {
 		res.Verdict, res.Finding, res.Class = fw.Violated, "unpack-panic", "panic"
 		res.Msg = "Unpack panicked on Pack's output: " + pv
